@@ -140,68 +140,14 @@ Definition rows_of (recs : list record) : option (list bytes * list (list bytes)
     if forallb (check_keys first) recs then Some (first, map (fun r => pad_values first (values r)) recs) else None
   end.
 
-(* ------------------------------------------------------------------ UTF-8 (Go's range-over-string decoding) *)
-Definition b_in (lo hi : N) (c : ascii) : bool := (lo <=? code c)%N && (code c <=? hi)%N.
-Definition is_cont (c : ascii) : bool := b_in 128 191 c.
-(* length of the valid UTF-8 sequence at the head of s; 0 = invalid (Go yields U+FFFD and consumes 1 byte) *)
-Definition utf8_len_at (s : bytes) : nat :=
-  match s with
-  | [] => 0
-  | c0 :: t =>
-    if (code c0 <? 128)%N then 1
-    else if b_in 194 223 c0 then
-      match t with c1 :: _ => if is_cont c1 then 2 else 0 | _ => 0 end
-    else if b_in 224 239 c0 then
-      match t with
-      | c1 :: c2 :: _ =>
-        if (if (code c0 =? 224)%N then b_in 160 191 c1 else if (code c0 =? 237)%N then b_in 128 159 c1 else is_cont c1)
-           && is_cont c2 then 3 else 0
-      | _ => 0
-      end
-    else if b_in 240 244 c0 then
-      match t with
-      | c1 :: c2 :: c3 :: _ =>
-        if (if (code c0 =? 240)%N then b_in 144 191 c1 else if (code c0 =? 244)%N then b_in 128 143 c1 else is_cont c1)
-           && is_cont c2 && is_cont c3 then 4 else 0
-      | _ => 0
-      end
-    else 0
-  end.
-(* independent statement of "s is valid UTF-8" (checked against Python's decoder by the harness) *)
-Fixpoint utf8_valid_go (k : nat) (s : bytes) : bool :=
-  match s with
-  | [] => Nat.eqb k 0
-  | c :: t =>
-    match k with
-    | S k' => is_cont c && utf8_valid_go k' t
-    | O => match utf8_len_at s with O => false | S n => utf8_valid_go n t end
-    end
-  end.
-Definition utf8_valid (s : bytes) : bool := utf8_valid_go 0 s.
-Definition FFFD : bytes := [ascii_of_N 239; ascii_of_N 191; ascii_of_N 189].
-
 (* ------------------------------------------------------------------ TSV *)
-(* pkg/lib/tsv_codec.go TSVEncodeField: iterates RUNES; invalid bytes come out as U+FFFD *)
+(* pkg/lib/tsv_codec.go TSVEncodeField: iterates BYTES (since /repo 6c1ca4524; it ranged over runes before and
+   turned bytes that are not valid UTF-8 into U+FFFD) *)
 Definition tsv_esc (c : ascii) : option bytes :=
   if eqc c BSL then Some [BSL; BSL] else if eqc c LF then Some [BSL; "n"]
   else if eqc c CR then Some [BSL; "r"] else if eqc c TAB then Some [BSL; "t"] else None.
-Fixpoint tsv_encode_go (skip : nat) (s : bytes) : bytes :=
-  match s with
-  | [] => []
-  | c :: t =>
-    match skip with
-    | S k => c :: tsv_encode_go k t
-    | O =>
-      match tsv_esc c with
-      | Some e => e ++ tsv_encode_go 0 t
-      | None => match utf8_len_at s with
-                | O => FFFD ++ tsv_encode_go 0 t
-                | S n => c :: tsv_encode_go n t
-                end
-      end
-    end
-  end.
-Definition tsv_encode (s : bytes) : bytes := tsv_encode_go 0 s.
+Definition tsv_encode (s : bytes) : bytes :=
+  flat_map (fun c => match tsv_esc c with Some e => e | None => [c] end) s.
 
 (* TSVDecodeField: iterates BYTES; a backslash that is last, or followed by anything else, is literal *)
 Fixpoint tsv_decode (s : bytes) : bytes :=
@@ -231,12 +177,13 @@ Definition write_tsv (headerless crlf : bool) (recs : list record) : option byte
     Some (unlines (ors_of crlf) ls)
   end.
 
-(* record_reader_tsv.go getRecordBatchExplicitTSVHeader: header fields are NOT decoded, data fields are *)
+(* record_reader_tsv.go getRecordBatchExplicitTSVHeader: header fields and data fields are decoded
+   (header decoding since /repo d7dac80b0) *)
 Definition read_tsv (dedupe ragged : bool) (text : bytes) : option (list record) :=
   match lines_of text with
   | [] => Some []
   | h :: data =>
-    let hs := split_string [TAB] h in
+    let hs := map tsv_decode (split_string [TAB] h) in
     map_opt (fun l => row_to_record dedupe ragged true hs (map tsv_decode (split_string [TAB] l))) data
   end.
 
